@@ -695,6 +695,12 @@ func monC06(x *Ctx) {
 			for _, a := range live {
 				fot = pruneType(fot, l.chain, a.Attr, nil)
 			}
+			want := len(live)
+			if l.ms.Placeholder {
+				// the flattened placeholder of an embedded message without fields is an attribute of the level too
+				fot = pruneType(fot, l.chain, "active", nil)
+				want++
+			}
 			obj := types.Object{AttrTypes: fot.AttrTypes}
 			if len(l.chain) == 0 {
 				obj.AttrTypes = nil
@@ -717,15 +723,23 @@ func monC06(x *Ctx) {
 					}
 				}
 			}
-			if missing != len(live) || len(errs) != len(live) {
-				x.Violate("to/diag-count/no-attr-types", id, fmt.Sprintf("%d error diagnostics (%d of %d attributes named), want one per attribute of %s", len(errs), missing, len(live), l.ms.Path),
+			if l.ms.Placeholder {
+				for _, e := range errs {
+					if strings.Contains(e, l.ms.Path+".active") && strings.Contains(e, "is missing") {
+						missing++
+						break
+					}
+				}
+			}
+			if missing != want || len(errs) != want {
+				x.Violate("to/diag-count/no-attr-types", id, fmt.Sprintf("%d error diagnostics (%d of %d attributes named), want one per attribute of %s", len(errs), missing, want, l.ms.Path),
 					map[string]interface{}{"diags": errs})
 			}
 		}
 		// --- the placeholder attribute of a message without fields is written too -----------
 		for _, k := range keys {
 			l := levels[k]
-			if !l.ms.Empty {
+			if !l.ms.Placeholder {
 				continue
 			}
 			x.Eval(1)
